@@ -35,6 +35,12 @@
 use crate::fields::{MultiArch, Priority};
 use crate::lossless::relations::Relations;
 
+/// Read a relationship field of debian/control, which may carry substitution
+/// variables (`${misc:Depends}`)
+fn parse_relations(s: &str) -> Relations {
+    Relations::parse_relaxed(s, true).0
+}
+
 fn format_field(name: &str, value: &str) -> String {
     match name {
         "Uploaders" => value
@@ -341,7 +347,7 @@ impl Source {
 
     /// The build dependencies of the package.
     pub fn build_depends(&self) -> Option<Relations> {
-        self.0.get("Build-Depends").map(|s| s.parse().unwrap())
+        self.0.get("Build-Depends").map(|s| parse_relations(&s))
     }
 
     /// Set the Build-Depends field
@@ -353,31 +359,31 @@ impl Source {
     pub fn build_depends_indep(&self) -> Option<Relations> {
         self.0
             .get("Build-Depends-Indep")
-            .map(|s| s.parse().unwrap())
+            .map(|s| parse_relations(&s))
     }
 
     /// Return the Build-Depends-Arch field
     pub fn build_depends_arch(&self) -> Option<Relations> {
-        self.0.get("Build-Depends-Arch").map(|s| s.parse().unwrap())
+        self.0.get("Build-Depends-Arch").map(|s| parse_relations(&s))
     }
 
     /// The build conflicts of the package.
     pub fn build_conflicts(&self) -> Option<Relations> {
-        self.0.get("Build-Conflicts").map(|s| s.parse().unwrap())
+        self.0.get("Build-Conflicts").map(|s| parse_relations(&s))
     }
 
     /// Return the Build-Conflicts-Indep field
     pub fn build_conflicts_indep(&self) -> Option<Relations> {
         self.0
             .get("Build-Conflicts-Indep")
-            .map(|s| s.parse().unwrap())
+            .map(|s| parse_relations(&s))
     }
 
     /// Return the Build-Conflicts-Arch field
     pub fn build_conflicts_arch(&self) -> Option<Relations> {
         self.0
             .get("Build-Conflicts-Arch")
-            .map(|s| s.parse().unwrap())
+            .map(|s| parse_relations(&s))
     }
 
     /// Return the standards version
@@ -724,7 +730,7 @@ impl Binary {
 
     /// The dependencies of the package.
     pub fn depends(&self) -> Option<Relations> {
-        self.0.get("Depends").map(|s| s.parse().unwrap())
+        self.0.get("Depends").map(|s| parse_relations(&s))
     }
 
     /// Set the Depends field
@@ -738,7 +744,7 @@ impl Binary {
 
     /// The package that this package recommends
     pub fn recommends(&self) -> Option<Relations> {
-        self.0.get("Recommends").map(|s| s.parse().unwrap())
+        self.0.get("Recommends").map(|s| parse_relations(&s))
     }
 
     /// Set the Recommends field
@@ -752,7 +758,7 @@ impl Binary {
 
     /// Packages that this package suggests
     pub fn suggests(&self) -> Option<Relations> {
-        self.0.get("Suggests").map(|s| s.parse().unwrap())
+        self.0.get("Suggests").map(|s| parse_relations(&s))
     }
 
     /// Set the Suggests field
@@ -766,7 +772,7 @@ impl Binary {
 
     /// The package that this package enhances
     pub fn enhances(&self) -> Option<Relations> {
-        self.0.get("Enhances").map(|s| s.parse().unwrap())
+        self.0.get("Enhances").map(|s| parse_relations(&s))
     }
 
     /// Set the Enhances field
@@ -780,7 +786,7 @@ impl Binary {
 
     /// The package that this package pre-depends on
     pub fn pre_depends(&self) -> Option<Relations> {
-        self.0.get("Pre-Depends").map(|s| s.parse().unwrap())
+        self.0.get("Pre-Depends").map(|s| parse_relations(&s))
     }
 
     /// Set the Pre-Depends field
@@ -794,7 +800,7 @@ impl Binary {
 
     /// The package that this package breaks
     pub fn breaks(&self) -> Option<Relations> {
-        self.0.get("Breaks").map(|s| s.parse().unwrap())
+        self.0.get("Breaks").map(|s| parse_relations(&s))
     }
 
     /// Set the Breaks field
@@ -808,7 +814,7 @@ impl Binary {
 
     /// The package that this package conflicts with
     pub fn conflicts(&self) -> Option<Relations> {
-        self.0.get("Conflicts").map(|s| s.parse().unwrap())
+        self.0.get("Conflicts").map(|s| parse_relations(&s))
     }
 
     /// Set the Conflicts field
@@ -822,7 +828,7 @@ impl Binary {
 
     /// The package that this package replaces
     pub fn replaces(&self) -> Option<Relations> {
-        self.0.get("Replaces").map(|s| s.parse().unwrap())
+        self.0.get("Replaces").map(|s| parse_relations(&s))
     }
 
     /// Set the Replaces field
@@ -836,7 +842,7 @@ impl Binary {
 
     /// Return the Provides field
     pub fn provides(&self) -> Option<Relations> {
-        self.0.get("Provides").map(|s| s.parse().unwrap())
+        self.0.get("Provides").map(|s| parse_relations(&s))
     }
 
     /// Set the Provides field
@@ -850,7 +856,7 @@ impl Binary {
 
     /// Return the Built-Using field
     pub fn built_using(&self) -> Option<Relations> {
-        self.0.get("Built-Using").map(|s| s.parse().unwrap())
+        self.0.get("Built-Using").map(|s| parse_relations(&s))
     }
 
     /// Set the Built-Using field
